@@ -213,7 +213,8 @@ def run_all(scratch, entries, jobs=14, mem_budget_gb=None, log=print):
             continue
         import hashlib, json
         src = srcs[e["harness"]]
-        key = hashlib.sha256((rh + support_hash(srcs, src["file"]) + json.dumps(e, sort_keys=True) + src["body"] + src["attrs"]).encode()).hexdigest()
+        sem = {k: e.get(k) for k in ("harness", "module", "id", "cfg", "flags", "field_sensitivity", "expect", "labels", "labels_extra")}
+        key = hashlib.sha256((rh + support_hash(srcs, src["file"]) + json.dumps(sem, sort_keys=True) + src["body"] + src["attrs"]).encode()).hexdigest()
         c = cache_get(key)
         if c is not None and not any(v == "undecided" for v in c["obligations"].values()):
             c["cached"] = True
